@@ -109,6 +109,26 @@ static void det_timer(int variant){ struct S *s=calloc(1,sizeof *s); s->kind=1; 
   dispatch_source_cancel(s->ds); quiesce_m(s); dispatch_source_cancel(s->ds); quiesce_m(s);
   if((variant&1) && atomic_load(&s->cancel_runs)!=1) fail("cancel handler did not run exactly once (deterministic timer life cycle): variant/runs",variant,atomic_load(&s->cancel_runs),0);
   dispatch_release(s->ds); dispatch_release(s->q); }
+// cancel from a foreign thread right after a handler finished, on a descriptor that stays quiet afterwards: the cancellation must
+// not be lost while the manager re-arms the registration (nothing else will ever wake the source again)
+extern void (*_dispatch_verif_yield_cb)(const volatile void *addr, const char *func, int line);
+static _Atomic(void*) q_ds; static __thread uint64_t yrng;
+static void q_ycb(const volatile void *addr, const char *func, int line){ (void)func;(void)line; char *d=atomic_load(&q_ds); if(!d) return; long off=(const volatile char*)addr-d; if(off<0||off>=160) return;
+  if(!yrng) yrng=seed*0x9e3779b97f4a7c15ull+(uint64_t)(uintptr_t)&yrng; yrng^=yrng<<13; yrng^=yrng>>7; yrng^=yrng<<17; if(yrng%6==0){ struct timespec ts={0,(long)(yrng%30000)}; nanosleep(&ts,0); } }
+static void quiet_cancel(int trials){ _dispatch_verif_yield_cb=q_ycb;
+  for(int t=0;t<trials && !viol;t++){ int p[2]; if(pipe(p)) return; dispatch_queue_t q=dispatch_queue_create("qc",NULL);
+    dispatch_source_t ds=dispatch_source_create(DISPATCH_SOURCE_TYPE_READ,(uintptr_t)p[0],0,q); atomic_store(&q_ds,(void*)ds);
+    __block _Atomic int evs=0, ch=0; int rfd=p[0];
+    dispatch_source_set_event_handler(ds,^{ char b[8]; if(read(rfd,b,sizeof b)>0) atomic_fetch_add(&evs,1); });
+    dispatch_source_set_cancel_handler(ds,^{ atomic_fetch_add(&ch,1); });
+    dispatch_activate(ds); if(write(p[1],"x",1)!=1) return;
+    for(int w=0; w<20000 && !atomic_load(&evs); w++) usleep(50);
+    { struct timespec ts={0,(long)(rnd()%60000)}; nanosleep(&ts,0); }
+    dispatch_source_cancel(ds);                                           // from this (foreign) thread; the pipe stays silent from now on
+    for(int w=0; w<4000 && !atomic_load(&ch); w++) usleep(500);
+    if(atomic_load(&ch)!=1) fail("the cancel handler of a read source cancelled from another thread on a descriptor that stays quiet was not invoked within 2 s: trial/events/runs",t,atomic_load(&evs),atomic_load(&ch));
+    atomic_store(&q_ds,(void*)0); dispatch_release(ds); dispatch_release(q); close(p[0]); close(p[1]); }
+  _dispatch_verif_yield_cb=0; }
 int main(int argc,char**argv){ seed=argc>1?strtoull(argv[1],0,0):1; int rounds=argc>2?atoi(argv[2]):3; signal(SIGUSR2,SIG_IGN); signal(SIGPIPE,SIG_IGN); long n=0;
   trbuf=malloc(TRMAX); _dispatch_verif_source_cb=srccb;
   det_phase=1; for(int v=0; v<16 && !viol; v++){ det(v); n++; } for(int v=0; v<16 && !viol; v++){ det_timer(v); n++; } det_phase=0;
@@ -117,6 +137,7 @@ int main(int argc,char**argv){ seed=argc>1?strtoull(argv[1],0,0):1; int rounds=a
     if(kind==3 && (scen==5||scen==6)) {}  // a write source on an empty pipe fires continuously: fine
     one(kind,scen); n++; }
   _dispatch_verif_source_cb=0;
+  if(!viol){ quiet_cancel(rounds*150); n+=rounds*150; }
   if(viol) printf("ORACLE VIOL seed=%llu %s\n",(unsigned long long)seed,vmsg); else printf("ORACLE ok items=%ld\n",n);
   fwrite(trbuf,1,trlen,stdout);
   return viol?1:0; }
